@@ -6,6 +6,7 @@
 (*   drift:<clause>     the code did something the spec action does not predict          *)
 (*                                                                                       *)
 (* Events (every field always present, uniformly typed):                                 *)
+(*   Create name                                        (TimeSeriesHolder(name))         *)
 (*   Put    name, len, kind, ok, names, lens, kinds     (observed holder after the call) *)
 (*   Store  name, len, kind, ok, names, lens, kinds     (observed holder after the call) *)
 (*   Delete name, ok, names, lens, kinds                (observed holder after the call) *)
@@ -117,6 +118,9 @@ TraceNext ==
        \/ /\ e.ev = "Condition"
           /\ Condition(e.name, e.sp)
           /\ UNCHANGED verdict
+       \/ /\ e.ev = "Create"
+          /\ Create(e.name)
+          /\ UNCHANGED verdict
        \/ /\ e.ev = "Block"
           /\ Block(Range(e.vars))
           /\ UNCHANGED verdict
@@ -143,7 +147,7 @@ TraceNext ==
        \/ /\ e.ev = "End"
           /\ PrintT(<< "VERDICT", e.tid, verdict.kind \o ":" \o verdict.clause >>)
           /\ phase' = "build" /\ holder' = EmptyHolder /\ solved' = NotSolved
-          /\ table' = NoTable /\ stated' = Unstated /\ conds' = {} /\ opts' = NoOpts /\ pending' = NoPending /\ hist' = << >>
+          /\ table' = NoTable /\ stated' = Unstated /\ conds' = {} /\ opts' = NoOpts /\ pending' = NoPending /\ axis' = NmK /\ hist' = << >>
           /\ verdict' = Ok
 
 TraceSpec == TraceInit /\ [][TraceNext]_tvars
